@@ -33,8 +33,11 @@ case $PROP in
       cat "$D/build.log"; echo "ERROR: cannot build the instrumented engine (see above)"; exit 2
     fi ;;
   *)
+    PKG=./cmd/mc
+    LC=$(echo "$PROP" | tr A-Z a-z)
+    [ -d "./cmd/mc-$LC" ] && PKG=./cmd/mc-$LC   # development binary of a single check
     "$B/instr" -repo "$REPO" -out "$D/ov" || exit 2
-    if ! go build $MODFLAG -overlay "$D/ov/overlay.json" -tags verif -o "$D/engine" ./cmd/mc > "$D/build.log" 2>&1; then
+    if ! go build $MODFLAG -overlay "$D/ov/overlay.json" -tags verif -o "$D/engine" $PKG > "$D/build.log" 2>&1; then
       cat "$D/build.log"; echo "ERROR: cannot build the engine (see above)"; exit 2
     fi ;;
 esac
